@@ -14,7 +14,19 @@ K_UDPHDR = {"unit": "udphdr", "inject": "elvis-core/src/protocols/udp/udp_parsin
 K_TCPHDR = {"unit": "tcphdr", "inject": "elvis-core/src/protocols/tcp/tcp_parsing.rs", "crate": "elvis-core"}
 K_ARP = {"unit": "arp", "inject": "elvis-core/src/protocols/arp/arp_parsing.rs", "crate": "elvis-core"}
 
+K_CHECKSUM = {"unit": "checksum", "inject": "elvis-core/src/protocols/utility.rs", "crate": "elvis-core"}
+
 PROPS = {
+    "C18": {
+        "units": ["checksum"],
+        "kani": [K_CHECKSUM, K_IPV4HDR],
+        "level": "proof",
+        "technique": "Verus contracts on the extracted compute_checksum variants of Checksum (unbounded payload loop) + RFC 1071 algebra lemmas; Kani complete harnesses on the real crate built with --features compute_checksum",
+        "level_text": "The accumulator functions (add_u16/add_u8/add_u32/accumulate_remainder/as_u16, compute_checksum variants) are verified against one's-complement addition with end-around carry for every payload length (loop invariant over an arbitrary byte iterator); lemmas: commutative monoid, the emitted field always verifies, a changed sum is always rejected. On the compiled crate with the feature on, CBMC proves for all field values that every emitted IPv4 header verifies under RFC 1071 against an independent 32-bit reference, that conforming headers are accepted and non-verifying ones rejected.",
+        "level_note": "Trusted: Verus/Z3, Kani/CBMC; assumed spec u16::overflowing_add (validated by Kani); vstd's prophetic iterator spec for Iterator::next; termination of the payload loop not verified. UDP/TCP emit/verify composition over the pseudo header is carried by the accumulator contracts + monoid lemmas, not by a whole-codec proof; a Kani twin of the payload loop is bounded (<= 5 bytes) and labelled so.",
+        "assumptions": ["compute_checksum build configuration", "payload iterators are finite"],
+        "explanation": "RFC 1071 checksum algebra and IPv4 header emit/verify",
+    },
     "C14": {
         "units": [],
         "kani": [K_IPV4HDR, K_UDPHDR, K_TCPHDR, K_ARP],
